@@ -76,6 +76,8 @@ type Rig struct {
 	OnDeliver func(m *hsms.DataMessage, ep hsms.SECS2Endpoint)
 	// HandlerDelay makes every data handler block for this long of simulated time.
 	HandlerDelay time.Duration
+	// AsyncErrDelay makes the async-send error handler block for this long.
+	AsyncErrDelay time.Duration
 
 	OpenErr    error
 	OpenDone   bool
@@ -166,6 +168,9 @@ func New(w *core.World, o Opts) *Rig {
 	if o.AsyncErrHandler {
 		co(hsms.WithAsyncSendErrorHandler(func(m hsms.Message, err error) {
 			r.AsyncErrs = append(r.AsyncErrs, fmt.Sprintf("%x: %v", m.SystemBytes(), err))
+			if r.AsyncErrDelay > 0 {
+				core.Sleep(r.AsyncErrDelay) // a slow application callback on the async sender goroutine
+			}
 		}))
 	}
 	cfg, err := hsmsss.NewConfig("sim", 5000, opts...)
